@@ -171,6 +171,22 @@ func After(delta int, name string, fn func()) {
 	b.mu.Unlock()
 }
 
+// KnownGoroutines returns the ids of all goroutines the scheduler has seen so
+// far in the current run (to be called by the running goroutine).
+func KnownGoroutines() map[int64]bool {
+	b := current
+	if b == nil {
+		return nil
+	}
+	b.mu.Lock()
+	defer b.mu.Unlock()
+	out := make(map[int64]bool, len(b.gs))
+	for id := range b.gs {
+		out[id] = true
+	}
+	return out
+}
+
 // SpawnedParked reports whether any goroutine that is not a client (i.e. one
 // that the code under test spawned) is parked at a hook. For use inside
 // BubbleConfig.Guards only: the scheduler calls guards with its lock held.
